@@ -196,10 +196,16 @@ void Terminal::Impl::executeExitCmd(SessionContext *s, const Args &)
     if (!(s->options & kQuietMode))
         s->wp_conn->send(s->token, "Bye!\r\n");
 
+    //! capture by value: the session context may be freed before this runs
+    auto wp_conn = s->wp_conn;
+    auto token = s->token;
     wp_loop_->runNext(
-        [this, s] {
-            s->wp_conn->endSession(s->token);
-            deleteSession(s->token);
+        [this, wp_conn, token] {
+            //! already gone: a second exit in the same pass, or the connection was closed meanwhile
+            if (sessions_.at(token) == nullptr)
+                return;
+            wp_conn->endSession(token);
+            deleteSession(token);
         },
         __func__
     );
